@@ -21,10 +21,11 @@ def run(rep, tier, seed, replay):
                        "int64 overflow of microsecond arithmetic is outside the model (|t| < 2^62)",
                        "python reference spec gen/c19.py (Spec/oracle: finite map entry -> due time) for the property verdict on implementation outputs",
                        "harness/c19.cc slot budget (fuel_exhausted thrown from the slot after k invocations per perform)",
-                       "op L drives the REAL Thread::process_events of a harness Thread subclass; the clock read by utils::time_since_epoch() is "
-                       "std::chrono::system_clock::now() interposed by the harness executable; the two lines of Thread::event_loop between "
-                       "process_events() and Poll::do_poll(timeout) (max(next_timeout(),0); m_scheduler->next_timeout) are replicated in the harness, "
-                       "event_loop itself and Poll::do_poll are not run"]))
+                       "op L runs the REAL Thread::event_loop of a harness Thread subclass for one iteration (real init_thread_local, process_events, "
+                       "timeout computation, Poll::do_poll); the clock read by utils::time_since_epoch() is std::chrono::system_clock::now() interposed by "
+                       "the harness executable; Poll::do_poll is wrapped at link time (-Wl,--wrap) to record its timeout argument and the two cached clocks "
+                       "and then runs the real do_poll with timeout 0 (the sleep itself is not simulated); the loop is ended by shutdown_exception from the "
+                       "second call_events; Poll::poll's conversion of the timeout to epoll_wait milliseconds (truncating, int) is outside the model"]))
     model = ltv.build_model("C19")
     impl = ltv.build_harness("c19", ["c19.cc"], libs=["-Wl,--wrap=" + DO_POLL_SYM])
     if replay:
